@@ -65,7 +65,7 @@ for g, nt, tk, ty, addr in PRODS:
     val = f"text_value({digits}, {radix})"
     res = f"{val} % 0x100000" if addr else val
     name = f"nm_{g}_{nt}_{tk}"
-    tag = {"pp": "C14", "it": "C01,C05", "ld": "C12", "pr": "C17"}[g]
+    tag = {"pp": "C14,C11", "it": "C01,C05", "ld": "C12", "pr": "C17"}[g]
     out += f"//@action {G[g]} {nt} = {tok} as {name}\n//@contract\n//@strslice\n//@dropunused\n"
     out += f"    requires n.is_ascii(), n@.len() >= {plen + 1}, text_is_number({digits}, {radix}),   // the token's regular expression\n"
     out += f"    ensures\n"
